@@ -315,8 +315,8 @@ size expression this is `C01_size_covers_present_fields`. -/
 def SizeCovers (m : Module) (sd : StructDef) : Prop :=
   ∀ (k : Nat) (w : SView) (sz : Int), w.sd = sd →
     (G m (k + 1)).read w [w.sd.sizeField] = some (.int sz) →
-    ∀ (x : String) (f : Field) (start size : Expr) (ty : PType) (bo : ByteOrder),
-      w.sd.field x = some f → f.kind = .phys start size ty bo →
+    ∀ (f : Field) (start size : Expr) (ty : PType) (bo : ByteOrder),
+      f ∈ w.sd.fields → f.kind = .phys start size ty bo →
       ∀ (j : Nat), j ≤ k → ∀ off s : Int,
         hasField (G m j) w f = some true →
         evalInt (envOf (G m j) w none) start = some off →
@@ -385,7 +385,8 @@ theorem physStorage_tight {m : Module} (hm : moduleWF m = true) {w1 w2 : SView} 
     (h1 : physStorage (G m k) w1 f start size = some st1) :
     physStorage (G m k) w2 f start size = some st1 := by
   obtain ⟨off, s, hh, hs, hst, hs0, ho0, rfl⟩ := physStorage_some h1
-  have hle := hcov K w1 sz rfl hsz x f start size ty bo hf hkind k hk off s hh hst hs ho0 hs0
+  have hmem : f ∈ w1.sd.fields := by unfold StructDef.field at hf; exact List.mem_of_find?_eq_some hf
+  have hle := hcov K w1 sz rfl hsz f start size ty bo hmem hkind k hk off s hh hst hs ho0 hs0
   have ho := G_mono hm k
   have hh2 := hasField_mono ho h hwf f true hh
   have hs2 := evalInt_mono (envOf_mono ho h hwf none) size s hs
@@ -559,7 +560,7 @@ theorem mem_extents {env : Env} {f : Field} {start size : Expr} {ty : PType} {bo
 expression: the hypothesis of `C01_ok_monotone_arrays_partial` is about constant folding only. -/
 theorem sizeCovers_of_plain {m : Module} (hm : moduleWF m = true) {sd : StructDef}
     (hwf : structWF m sd = true) (hp : plainSize sd) : SizeCovers m sd := by
-  intro k w sz hsd hsz x f start size ty bo hf hkind j hj off s hh hst hs ho0 hs0
+  intro k w sz hsd hsz f start size ty bo hf hkind j hj off s hh hst hs ho0 hs0
   obtain ⟨fs, hfs, hfk⟩ := hp
   subst hsd
   -- the size is the value of the synthesized expression in the environment of level k
@@ -577,8 +578,7 @@ theorem sizeCovers_of_plain {m : Module} (hm : moduleWF m = true) {sd : StructDe
   have hh' := evalBool_mono henv f.cond true hh
   have hst' := evalInt_mono henv start off hst
   have hs' := evalInt_mono henv size s hs
-  have hmem := mem_extents (env := envOf (G m (j + d)) w none) hkind w.sd.fields
-    (by unfold StructDef.field at hf; exact List.mem_of_find?_eq_some hf)
+  have hmem := mem_extents (env := envOf (G m (j + d)) w none) hkind w.sd.fields hf
   rw [hh', hst', hs'] at hmem
   exact hcov off s hmem
 
